@@ -389,6 +389,24 @@ def fit_cases(rng, thorough):
                            "data_seed": int(rng.integers(0, 2**31))}
 
 
+ZERO_ADMISSIBLE = {"gamma", "mu", "loc"}  # location-type parameters: the value 0 is a legitimate fixed value
+
+
+def zero_fixed_cases(rng):
+    """boundary stream: a parameter fixed at exactly 0 / 0.0 (falsy in Python) must be honoured like any other"""
+    for name, _, params in TABLES["families"]:
+        for j, pname in enumerate(params):
+            if pname not in ZERO_ADMISSIBLE or len(params) < 2:
+                continue
+            for zero in (0, 0.0):
+                farg = list(sentinel.random_theta(rng, name, wide=False).values())
+                theta = list(sentinel.random_theta(rng, name, wide=False).values())
+                farg[j] = zero
+                theta[j] = 0.4  # data generated away from the fixed value, so that an ignored fixing shows
+                yield {"kind": "fit", "family": name, "fixed": [j], "farg": farg, "theta": theta,
+                       "data": "own_other_theta", "n": 300, "data_seed": int(rng.integers(0, 2**31)), "gen": "zero-fixed"}
+
+
 def corpus_cases():
     """witnesses of DESIGN section 4 #2, #3, #4 and of the two defects found here (corpus/C11, run first)"""
     import glob
@@ -593,7 +611,7 @@ def main(ck):
         for sig, detail in bad:
             ck.fail(sig, case, detail)
     # (2) real fits
-    run_fits(ck, list(fit_cases(rng, thorough)), 8 if thorough else 4)
+    run_fits(ck, list(zero_fixed_cases(rng)) + list(fit_cases(rng, thorough)), 8 if thorough else 4)
     # (3) least squares
     for case in lsq_cases(rng, 12 if thorough else 3):
         bad = check_lsq(case)
